@@ -34,6 +34,7 @@ def userCtor (ce : Ops.CtorEnv) (tag : String) : Option (Ctor Float) :=
     let gamut := probeReqGamut.filter fun p => given.contains p.key || p.key == S "req_real"
     Ops.plain ce "u:add2" true gamut raw)
   else if tag == "u:add2" then some (Ops.plain ce "u:add2" true Ops.addoneGamut)
+  else if tag == "u:needv" then some (Ops.plain ce "u:add2" true [.flag (S "inv"), .real (S "v") none])
   else if tag == "u:oneway3" then some (Ops.plain ce "u:oneway3" false Ops.addoneGamut)
   else none
 
@@ -70,13 +71,33 @@ structure CtxSpec where
   users : List (Str × String)
   plain : Bool := false
 
+/-- `Plain::get_resource` past the run-time registrations, on the files shipped under
+`geodesy/resources` (the harness runs from the repository root): `prefix_suffix.resource`
+first, then the item `suffix` of the register `prefix.md` -/
+def fileResource (name : Str) : Option Str :=
+  let i := name.idxOf ':'
+  if i ≥ name.length then none else
+  let pre := name.take i
+  let suf := name.drop (i + 1)
+  if suf.contains ':' then none else
+  let file (fn : Str) : Option Str := (Gen.shippedResources.find? (fun p => S p.1 == fn)).map (fun p => S p.2)
+  match file (pre ++ S "_" ++ suf ++ S ".resource") with
+  | some t => some (Text.trim t)
+  | none =>
+    match file (pre ++ S ".md") with
+    | some t => Ctx.registerItem t suf
+    | none => none
+
 def mkEnvWith (ce : Ops.CtorEnv) (c : CtxSpec) : Env Float :=
   { builtin := Registry.builtin Float ce
     user := fun name =>
       match c.users.reverse.find? (·.1 == name) with
       | some (_, tag) => userCtor ce tag
       | none => none
-    resource := fun name => (c.resources.reverse.find? (·.1 == name)).map (·.2)
+    resource := fun name =>
+      match (c.resources.reverse.find? (·.1 == name)).map (·.2) with
+      | some b => some b
+      | none => if c.plain then fileResource name else none
     ellpsKnown := ellpsKnown }
 
 def mkEnv (c : CtxSpec) : Env Float := mkEnvWith ce c
@@ -164,7 +185,7 @@ def handleHist (fields : List String) : String :=
       { ctorById := fun id => userCtor ce (String.ofList id)
         builtin := Registry.builtin Float ce
         ellpsKnown := ellpsKnown
-        fileResource := fun _ => none
+        fileResource := fileResource
         sem := sem
         nan := Float.ofBits 0x7FF8000000000000
         actionOf := Ops.actionOf Float
